@@ -77,6 +77,8 @@ def run_job(job):
             ob = "inv:" + loc["tag"][3:]
         elif loc["kind"] == "inserted" and loc.get("tag") == "contract":
             ob = "post-or-contract"
+        elif loc["kind"] == "repo" and "termination" in (e["msg"] or ""):
+            ob = "decreases:%s" % _owner_fn(job.unit, loc).split()[-1]
         elif loc["kind"] == "repo":
             owner = _owner_fn(job.unit, loc)
             ob = "%s:%s@%s:%d" % ("body" if cls != "definite" else "site", owner, os.path.relpath(loc["file"], C.REPO), loc["line"])
